@@ -1,8 +1,12 @@
 import Driver.Stream
 import Driver.Recovery
 import Driver.H3Validate
+import Driver.Codec
+import Driver.CloseTimer
 
 structure World where
+  close : Drv.CloseW := {}
+  codec : Drv.CodecW := {}
   h3v : Drv.H3VW := {}
   stream : Drv.StreamW := {}
   recov : Drv.RecW := {}
@@ -21,6 +25,13 @@ def step (w : World) (line : String) : World × String :=
     else if t.startsWith "h3v." then
       let (s, o) := Drv.stepH3V w.h3v toks
       ({ w with h3v := s }, o)
+    else if t.startsWith "codec." then
+      let (s, o) := Drv.stepCodec w.codec toks
+      ({ w with codec := s }, o)
+    else if t.startsWith "spec." then (w, Drv.stepSpec toks)
+    else if t.startsWith "close." then
+      let (s, o) := Drv.stepClose w.close toks
+      ({ w with close := s }, o)
     else (w, "bad-op")
 
 partial def loop (hin hout : IO.FS.Stream) (w : World) : IO Unit := do
